@@ -32,6 +32,16 @@ FIXED_PROGRAMS = [
     ("def f(o = <*n = 0*>) do o->n = o->n + 1; o->n end; [f(), f()]", "[1, 1]"),
     ("def mk() do def acc = []; fn(x) do append(acc, x); acc end end; def a = mk(); def b = mk(); a(1); b(2); [a(3), b(4)]",
      "[[1, 3], [2, 4]]"),
+    # the SAME use of a name, evaluated again where a nearer binding has appeared meanwhile (or is absent this time):
+    # every evaluation finds the nearest enclosing binding that exists at that moment
+    ("def v = 'global'; def f(c) do if c then do def v = 'local' end; v end; [f(FALSE), f(TRUE), f(FALSE)]", "['global', 'local', 'global']"),
+    ("def v = 'g'; def mk() do def r = fn() v; def a = r(); def v = 'l'; [a, r()] end; mk()", "['g', 'l']"),
+    ("def v = 'g'; def mk(c) do if c then do def v = 'l' end; fn() v end; def a = mk(FALSE); def b = mk(TRUE); [a(), b(), a()]",
+     "['g', 'l', 'g']"),
+    ("def f(l) length(l); def a = f([1, 2]); def length(x) 99; [a, f([1, 2])]", "[2, 99]"),
+    ("def n = 1; def g() n; def h(n) g() + n; [h(10), g(), h(20)]", "[11, 1, 21]"),
+    ("def v = 1; def f(c) do def r = []; for i in [1, 2, 3] do if i == c then do def v = 10 * i end; append(r, v) end; r end; "
+     "[f(2), f(0), f(3)]", "[[1, 20, 20], [1, 1, 1], [1, 1, 30]]"),
 ]
 
 
